@@ -125,6 +125,17 @@ def run (op : String) (args : List String) : Option String :=
     | some sess, some w, some xs, some a, some b, some zs, some n =>
       if xs.length = modIterations ∧ zs.length = modIterations then some (verdict (modVerify cur H sess w xs a b zs n)) else none
     | _, _, _, _, _, _, _ => none
+  | "wire_roundtrip", [parts, expect, tag] =>
+    -- Bob's proof with check: the last two components are the coordinates of U, rebuilt with `NewECPoint`
+    match pList pInt parts, pDec expect with
+    | some parts, some expect => some (match wireRoundTrip parts expect with
+      | some l =>
+        let onCurve := match l.reverse with
+          | y :: x :: _ => if tag == "ed" then (Ed25519.curve.ecNew x y).isSome else (Secp256k1.curve.ecNew x y).isSome
+          | _ => false
+        if onCurve then "ok " ++ rList rNat l else "err"
+      | none => "err")
+    | _, _ => none
   | "wire_roundtrip", [parts, expect] =>
     match pList pInt parts, pDec expect with
     | some parts, some expect => some (match wireRoundTrip parts expect with
